@@ -354,6 +354,9 @@ func solveAll(vcs []*VC, obls []*Obligation, vcOf map[*Obligation]*VC, tier stri
 			vc := vcOf[o]
 			if o.Static != "" {
 				o.Solver = "syntactic check of the SSA form"
+				if o.Kind == "initial" {
+					o.Solver = "execution of the input-free package initialisation"
+				}
 				if o.Static == "holds" {
 					o.Result = "unsat"
 				} else {
@@ -364,6 +367,9 @@ func solveAll(vcs []*VC, obls []*Obligation, vcOf map[*Obligation]*VC, tier stri
 			}
 			text := vc.smtText(o)
 			file := filepath.Join(scratch, fmt.Sprintf("o%04d.smt2", i))
+			if os.Getenv("GOVC_KEEP") != "" {
+				text = "; obligation " + o.Name + "\n" + text
+			}
 			if len(text) > maxVCBytes {
 				o.Result = "error"
 				o.Output = fmt.Sprintf("verification condition too large (%d bytes)", len(text))
